@@ -1,0 +1,11 @@
+//go:build verif
+
+package resolve
+
+// Contracts for the deductive verification in /verif (comment-only file).
+
+// spelling suggestions must not depend on Go map iteration order: the candidate list is
+// sorted as a whole before the nearest name is picked (ties go to the first candidate)
+//@ func resolver.spellcheck
+//@   prop C03
+//@   assert /return spell.Nearest\(use.id.Name, names\)/ candidates_sorted: sorted(names)
